@@ -90,9 +90,9 @@ ASSUMPTIONS = [
     "non-zero extent along each of the first dim axes and zero "
     "extent along the others (Interpolator derives its dimension from the "
     "bounding box; an all-coincident particle set in dim < 3 is the "
-    "LinkedListNNPS heap overflow recorded under C01); automatic-grid cases use a cloud anchored at opposite "
-    "corners of the lattice and num_points >= 5 so that every grid "
-    "dimension has >= 2 points",
+    "LinkedListNNPS heap overflow recorded under C01); automatic-grid cases "
+    "use a cloud anchored at opposite corners of the lattice and "
+    "num_points >= 5 so that every grid dimension has >= 2 points",
     "in 'ev-' shards the harness builds the destination array as "
     "Interpolator._create_particle_array does (but with per-target h <= the "
     "largest source h), lists the equations as "
